@@ -473,12 +473,31 @@ def sc_arange(a, n, st, c, e):
     _start()
     sx.assume(c <= n)
     sx.assume(e < n)
+    sx.assume(st != 0)
     import numpy as np
 
     out = _xp().arange(a, a + n * st, st, dtype=np.int64, chunks=(c,), spec=G.default_spec())
     _declared_ok(out, (n,))
     t, _ = _elem(out, (e,))
     _expect(t, ("val", "arange", a + e * st))
+
+
+def sc_store_target(n, m, c, ct, e):
+    """store(x, <existing target array>) without a region: x of length n in chunks of c, target of length m in chunks of ct"""
+    _start()
+    import cubed
+
+    sx.assume(c <= n)
+    sx.assume(ct <= m)
+    sx.assume(e < n)
+    x = G.stub_array("x", (n,), (c,))
+    tgt = G.ZStub((m,), (ct,), "float64")
+    (out,) = cubed.store([x], [tgt], compute=False)
+    # accepted: NumPy's `target[...] = x` needs equal shapes, so anything else accepted here must at least run
+    _declared_ok(out, (m,))
+    sx.require(n == m, "store-accepts-a-target-of-another-shape", f"source ({n},) into target ({m},)")
+    t, _ = _elem(out, (e,))
+    _expect(t, ("elem", "x", (e,)))
 
 
 def sc_eye(n, c, k, e0, e1):
@@ -614,7 +633,8 @@ SCENARIOS = {
     "permute_dims": (sc_transpose, lambda N: [("n", 1, 4), ("m", 1, N), ("c", 1, 4), ("c2", 1, N), ("e", 0, N), ("e2", 0, 4)]),
     "broadcast_to": (sc_broadcast_to, lambda N: [("n", 1, N), ("c", 1, N), ("k", 0, 1), ("e", 0, N)]),
     "blocks[b]": (sc_blocks_view, lambda N: [("n", 1, N), ("c", 1, N), ("b", 0, N), ("p", 0, N)]),
-    "arange": (sc_arange, lambda N: [("a", -3, 3), ("n", 1, N), ("st", 1, 3), ("c", 1, N), ("e", 0, N)]),
+    "arange": (sc_arange, lambda N: [("a", -3, 3), ("n", 1, N), ("st", -3, 3), ("c", 1, N), ("e", 0, N)]),
+    "store[existing-target]": (sc_store_target, lambda N: [("n", 1, N), ("m", 1, N), ("c", 1, N), ("ct", 1, N), ("e", 0, N)]),
     "eye": (sc_eye, lambda N: [("n", 1, N), ("c", 1, N), ("k", -2, 2), ("e0", 0, N), ("e1", 0, N)]),
     "reshape[2d->1d]": (sc_reshape_route, lambda N: [("n", 1, N), ("m", 1, 3), ("c", 1, N), ("e", 0, 3 * N)]),
 }
